@@ -255,6 +255,44 @@ fn check_history(c: &Cfg, faults: &[(u64, FaultKind)], p: &mut Partial, tag: &st
             }
         }
     }
+    // (round 13, after C16k) the same observation for *any* linear transformation, diagonal or
+    // low-rank: the transformed gradient is a fixed linear image of the gradient for as long as
+    // the transformation stays. All draws between two update events (the event draw closes its
+    // segment) must therefore be explained by ONE matrix: fit it by least squares and demand a
+    // vanishing residual. A transformation that changes without an event merges two segments.
+    if matches!(c.preset, Preset::DiagNuts | Preset::DiagMclmc | Preset::LowRankNuts | Preset::LowRankMclmc) && c.flags & 1 != 0 && c.flags & 4 != 0 && c.dim >= 1 {
+        let mut seg: Vec<(Vec<f64>, Vec<f64>)> = vec![];
+        let mut seg_start = 0usize;
+        let n = res.draws.len();
+        for d in 0..n {
+            let r = &res.draws[d];
+            if let (Some(g), Some(gy)) = (vec_of(&r.stats, "gradient"), vec_of(&r.stats, "transformed_gradient")) {
+                if g.len() == c.dim && gy.len() == c.dim && g.iter().chain(gy.iter()).all(|x| x.is_finite()) {
+                    seg.push((g, gy));
+                }
+            }
+            let ev = get(&r.stats, "transformation_update_id").is_some();
+            if ev || d + 1 == n {
+                if seg.len() > c.dim {
+                    match linear_fit_residual(&seg, c.dim) {
+                        Some(resid) => {
+                            p.count("segments_between_update_events_fitted_by_one_linear_map", 1);
+                            if resid > 1e-7 {
+                                viol(
+                                    "transformation-changed-without-update-event",
+                                    format!("draws {seg_start}..={d} carry no transformation update in between, but no single linear map takes their gradients to their transformed gradients (relative residual {resid:e})"),
+                                    p,
+                                );
+                            }
+                        }
+                        None => p.count("segments_with_degenerate_gradients_not_fitted", 1),
+                    }
+                }
+                seg.clear();
+                seg_start = d + 1;
+            }
+        }
+    }
     // transformation-update events <=> the transformation changed
     if types.contains_key("transformation_update_id") {
         for d in 0..res.draws.len() {
@@ -363,4 +401,62 @@ fn evals_start(c: &Cfg) -> u64 {
     let t = tweaks(c);
     let start: Vec<f64> = (0..c.dim).map(|i| 0.15 + 0.37 * i as f64).collect();
     with_settings!(c.preset, &t, |s| run_chain(&s, Dens::new(target(c.dim)), 3, &start, 0)).n_eval_after_init
+}
+
+
+/// least-squares fit of `gy = A^T g` over the pairs of a segment; returns the largest residual
+/// relative to the largest transformed gradient, `None` when the gradients do not span the space
+fn linear_fit_residual(pairs: &[(Vec<f64>, Vec<f64>)], dim: usize) -> Option<f64> {
+    // normal equations (G^T G) A = G^T T, solved column by column with partial pivoting
+    let mut gtg = vec![vec![0.0f64; dim]; dim];
+    let mut gtt = vec![vec![0.0f64; dim]; dim];
+    for (g, t) in pairs {
+        for i in 0..dim {
+            for j in 0..dim {
+                gtg[i][j] += g[i] * g[j];
+                gtt[i][j] += g[i] * t[j];
+            }
+        }
+    }
+    // scale-invariant conditioning test: equilibrate by the diagonal
+    let diag: Vec<f64> = (0..dim).map(|i| gtg[i][i].sqrt()).collect();
+    if diag.iter().any(|x| !(*x > 0.0)) {
+        return None;
+    }
+    let mut m = vec![vec![0.0f64; 2 * dim]; dim];
+    for i in 0..dim {
+        for j in 0..dim {
+            m[i][j] = gtg[i][j] / (diag[i] * diag[j]);
+            m[i][dim + j] = gtt[i][j] / diag[i];
+        }
+    }
+    for col in 0..dim {
+        let piv = (col..dim).max_by(|a, b| m[*a][col].abs().partial_cmp(&m[*b][col].abs()).unwrap())?;
+        if m[piv][col].abs() < 1e-6 {
+            return None;
+        }
+        m.swap(col, piv);
+        for r in 0..dim {
+            if r != col {
+                let f = m[r][col] / m[col][col];
+                for k in col..2 * dim {
+                    m[r][k] -= f * m[col][k];
+                }
+            }
+        }
+    }
+    // A[i][j] = m[i][dim + j] / m[i][i] / diag[i]
+    let a: Vec<Vec<f64>> = (0..dim).map(|i| (0..dim).map(|j| m[i][dim + j] / m[i][i] / diag[i]).collect()).collect();
+    let tmax = pairs.iter().flat_map(|(_, t)| t.iter()).fold(0.0f64, |mx, x| mx.max(x.abs()));
+    if !(tmax > 0.0) {
+        return None;
+    }
+    let mut worst = 0.0f64;
+    for (g, t) in pairs {
+        for j in 0..dim {
+            let pred: f64 = (0..dim).map(|i| g[i] * a[i][j]).sum();
+            worst = worst.max((pred - t[j]).abs() / tmax);
+        }
+    }
+    Some(worst)
 }
